@@ -160,6 +160,7 @@ def run(P, rep, tier):
     if var is not None:
         tasks += [('R2', Pid, X) for Pid in SPEC_IDS for X in ids]
         tasks += [('R3', None, X) for X in SPEC_IDS]
+        tasks += [('R6', None, X) for X in SPEC_IDS]
     from sa.par import pmap
     results = dict(zip(tasks, pmap(_task, tasks)))
     total_paths = sum(r['paths'] for r in results.values())
@@ -284,6 +285,14 @@ def _task_inner(t):
     kind, Pid, X = t
     P, R, table, var, loop = _CTX
     H = ReaderHarness(P, R, havoc=True)
+    if kind == 'R6':
+        # empty class-level mappings are extension hooks a subclass may fill: explored open, for the
+        # shared-table rule only (the order rules speak about the class as written)
+        H.open_hooks = tuple(c.qualname for c in R.cls.repo_mro())
+        preds = [p for p in SPEC_IDS if X in table.get(p, ())]
+        row = frozenset(['diffx']) if X == 'diffx' else frozenset(table[preds[0]])
+        paths, exceeded = H.paths([Script(X, options='unknown')], inject=(loop, lambda I: {var: row}), max_paths=3000)
+        return {'paths': len(paths), 'exceeded': False, 'shared_mut': _shared_mutations(paths)}
     if kind == 'R1':
         paths, exceeded = H.paths([Script(X, options='unknown' if X == 'diffx' else 'none')])
         sets = set()
